@@ -96,17 +96,11 @@ def coq_sources():
     return [os.path.relpath(p, COQ) for p in out]
 
 
-def ensure_coq_makefile():
-    """_CoqProject and Makefile are derived from the directory listing (so adding a file needs no edit)."""
+def ensure_coq_project_file():
+    """_CoqProject is derived from the directory listing (for editors and coqchk users; the build does not need it)."""
     srcs = coq_sources()
-    proj = "-R . Qryn\n-arg -w -arg -notation-overridden,-deprecated-hint-without-locality,-deprecated-instance-without-locality,-ambiguous-paths\n" + "\n".join(srcs) + "\n"
-    pp = os.path.join(COQ, "_CoqProject")
-    old = open(pp).read() if os.path.exists(pp) else None
-    if old != proj or not os.path.exists(os.path.join(COQ, "Makefile")):
-        open(pp, "w").write(proj)
-        rc, out = sh(["coq_makefile", "-f", "_CoqProject", "-o", "Makefile"], cwd=COQ)
-        if rc != 0:
-            raise RuntimeError("coq_makefile failed: " + out)
+    proj = "-R . Qryn\n" + "\n".join(srcs) + "\n"
+    open(os.path.join(COQ, "_CoqProject"), "w").write(proj)
 
 
 COQ_WARN = "-notation-overridden,-deprecated-hint-without-locality,-deprecated-instance-without-locality,-ambiguous-paths"
